@@ -161,6 +161,9 @@ func runC12(w *mon.W) {
 			// byte strings that are valid multi-byte UTF-8: the order that counts is still the order of bytes
 			kind = "multi-byte-utf8"
 			runes := []rune("éèабλμ漢字🧬ÿĀa")
+			if r.Intn(2) == 0 {
+				runes = []rune("©¡¢£®¿éÿж") // no single-byte letter at all; several letters of the form C2 xx
+			}
 			m := 1 + r.Intn(40)
 			if r.Intn(3) == 0 {
 				m = 1 + r.Intn(2000)
